@@ -59,7 +59,9 @@ VNAME_PROGRAMS = ['p(V9) :- q(V9, V10).', 'p(V99, X) :- q(V99, V100, X).', 'p(V1
 CLI_PROGRAMS = ['p(X) :- q(X).', 'p(X + 1) :- q(X), not r(X, X).', '{p(X)} :- q(X), X = 1..3.', ':- p(X), q(X), X != a.',
                 'p(1..3). q(X) :- p(X), not not r(X).', 'p(-X) :- q(X). p(X / 2) :- q(X), X \\ 2 = 0.', 'p(a). q(b) :- p(a), a < b.',
                 's :- not s. t(X, Y) :- r(X, Y), X < Y, not p(Y).', 'p(X) :- X = 1..n, not q(X).', 'q(#inf). q(#sup) :- q(#inf).',
-                'p(2 * 3 / 2). r(3 * 3 \\ 2).', 'p(Z) :- q(-Z), r(Z1, -Z1).']
+                'p(2 * 3 / 2). r(3 * 3 \\ 2).', 'p(Z) :- q(-Z), r(Z1, -Z1).',
+                'p(X - (Y - 1)) :- q(X, Y).', 'p(X - (Y + 1), X + (Y - 2)) :- q(X, Y), X - (Y - 1) > 0.', 'p(X * (Y * 2), X / (Y / 2)) :- q(X, Y).',
+                'p(-(X - 1), -(-X)) :- q(X), X \\ (2 \\ 3) = (X \\ 2) \\ 3.', 'p((1..2) + (1..2), X - (1..3)) :- q(X).']
 
 
 def generate(tier, seed):
